@@ -93,4 +93,7 @@ Qed.
 Theorem dur_float_hours_us (us : Z) : (0 <= us < 3600000000 * 2^21)%Z ->
   Ztrunc (RN (IZR us / IZR (60 * 60 * 1000000))) = (us / 3600000000)%Z.
 Proof. intros H. change (60 * 60 * 1000000)%Z with 3600000000%Z. apply (div_trunc_exact 32); lia. Qed.
-
+Theorem dur_float_minutes_us (a : Z) : (0 <= a < 3600000000)%Z -> Ztrunc (RN (IZR a / IZR (60 * 1000000))) = (a / 60000000)%Z.
+Proof. intros H. change (60 * 1000000)%Z with 60000000%Z. apply (div_trunc_exact 26); lia. Qed.
+Theorem dur_float_seconds_us (a : Z) : (0 <= a < 60000000)%Z -> Ztrunc (RN (IZR a / IZR 1000000)) = (a / 1000000)%Z.
+Proof. intros H. apply (div_trunc_exact 20); lia. Qed.
